@@ -175,8 +175,12 @@ def _tags(blob):
 
 def fields_of(m):
     lit = m._message
+    msg_ = m.message
     return {'content': bytes(lit._contents), 'filename': lit.filename, 'mtime': int(lit.mtime.timestamp()), 'format': lit.format, 'compression': int(m._compression),
-            'signatures': sorted(hx(bytes(s)) for s in m.signatures)}
+            'signatures': sorted(hx(bytes(s)) for s in m.signatures),
+            # what the public accessors say (the object's boundary), beside what the packet holds
+            'api_filename': m.filename, 'api_sensitive': m.is_sensitive, 'api_compressed': m.is_compressed,
+            'api_message': hx(msg_.encode('utf-8', 'surrogateescape') if isinstance(msg_, str) else bytes(msg_))[:2000]}
 
 
 def run_case(ctx, d):
@@ -303,7 +307,8 @@ def _foreign(ctx, d, pgpy):
     r = ctx.rng('foreign', d['foreign'], d['seed'])
     for n in range(10):
         data = bytes(r.getrandbits(8) for _ in range(r.choice([0, 5, 600, 3000])))
-        fn = r.choice([b'', b'f.bin', 'ü.txt'.encode('utf-8')])
+        # names as other producers write them: with directory parts, separators of either kind, dots, a trailing separator
+        fn = r.choice([b'', b'f.bin', 'ü.txt'.encode('utf-8'), b'docs/2024/report.txt', b'/etc/motd', b'spool/', b'C:\\dir\\file.txt', b'../up.txt', b'.hidden', b'a b  c.txt', b'_CONSOLE'])
         mt = r.choice([0, 1234567890])
         signers = r.sample(SIGNERS[:3], r.randint(0, 2))
         body = b'b' + bytes([len(fn)]) + fn + mt.to_bytes(4, 'big') + data
@@ -354,6 +359,8 @@ def _foreign(ctx, d, pgpy):
         except Exception as e:
             ctx.fail('foreign-message-fields-unreadable', dict(where, err=repr(e)[:160]))
             continue
+        if f['api_filename'] != fn.decode('utf-8') or f['api_sensitive'] != (fn == b'_CONSOLE') or f['api_compressed'] != bool(calg):
+            ctx.fail('foreign-message-imports-differently', dict(where, accessor_filename=f['api_filename'], in_the_packet=fn.decode('utf-8'), sensitive=f['api_sensitive'], compressed=f['api_compressed']))
         if f['content'] != data or f['filename'] != fn.decode('utf-8') or f['mtime'] != mt or f['compression'] != calg or len(f['signatures']) != len(sigs):
             ctx.fail('foreign-message-imports-differently', dict(where, got={k: (v if k != 'content' else len(v)) for k, v in f.items() if k != 'signatures'}))
         for s in signers:
